@@ -1,8 +1,9 @@
 /- Line-protocol ops for the path-safety / checkout model (C17). -/
 import DulwichModel.Model.PathSafe
+import DulwichModel.Model.Checkout
 import Driver.Util
 namespace DriverC17
-open Dulwich Dulwich.PathSafe DriverUtil
+open Dulwich Dulwich.PathSafe Dulwich.Checkout DriverUtil
 
 /-- `<filtered>=<folded>` (hex of UTF-8) pairs: the value of the `fold` parameter on the inputs that occur,
 computed by the harness with the real `unicodedata`. -/
@@ -24,6 +25,46 @@ def validator? (s : String) : Option Validator :=
   match s with
   | "d" => some .default | "n" => some .ntfs | "h" => some .hfs | "b" => some .both | _ => none
 
+/-! checkout model: `c17.bift <validator> <root> <nfs> <node>… <nent> <entry>… <query>…`
+  root / node paths / queries: hex of the `/`-joined physical path from the sandbox root;
+  node = `<path>:d` | `<path>:f:<mode>:<content>` | `<path>:l:<target>`; entry = `<path>:<mode>:<content>`. -/
+
+def ppath? (h : String) : Option PPath := do
+  let b ← bytes? h
+  some (if b.isEmpty then [] else splitOn 47 b)
+
+def node? (s : String) : Option (PPath × Node) :=
+  match s.splitOn ":" with
+  | [p, "d"] => do some (← ppath? p, .dir)
+  | [p, "f", m, c] => do some (← ppath? p, .file (← bytes? c) (← nat? m))
+  | [p, "l", t] => do some (← ppath? p, .link (← bytes? t))
+  | _ => none
+
+def entry? (s : String) : Option Entry :=
+  match s.splitOn ":" with
+  | [p, m, c] => do some { path := ← bytes? p, mode := ← nat? m, content := ← bytes? c }
+  | _ => none
+
+def showPPath (p : PPath) : String := hex (p.foldl (fun acc c => if acc.isEmpty then c else acc ++ [47] ++ c) [])
+
+def showNode : Option Node → String
+  | none => "-"
+  | some .dir => "d"
+  | some (.file c m) => s!"f:{m}:{hex c}"
+  | some (.link t) => s!"l:{hex t}"
+
+def dedup (l : List PPath) : List PPath := l.foldl (fun acc p => if acc.contains p then acc else acc ++ [p]) []
+
+def runBift (v : Validator) (root : PPath) (nodes : List (PPath × Node)) (entries : List Entry)
+    (queries : List PPath) : String :=
+  let fs : FS := nodes.foldl (fun fs pn => fs.set pn.1 (some pn.2)) (fun _ => none)
+  let (st, err) := buildIndexFromTree (v.run foldAscii) root entries fs
+  let status := match err with | none => "ok" | some e => e.toString
+  let qs := dedup (queries ++ st.log.map Mut.target)
+  let body := qs.map (fun p => showPPath p ++ "=" ++ showNode (st.fs p))
+  let safe := hex (st.safe.foldl (fun acc c => if acc.isEmpty then c else acc ++ [47] ++ c) [])
+  status ++ " " ++ toString st.log.length ++ " " ++ safe ++ " " ++ " ".intercalate body
+
 def handle (op : String) (args : List String) : Option String :=
   match op, args with
   | "c17.elem", v :: h :: tbl => some <| match validator? v, bytes? h, parseFold tbl with
@@ -43,6 +84,16 @@ def handle (op : String) (args : List String) : Option String :=
       | some a, some b => (match select a b with
           | .default => "d" | .ntfs => "n" | .hfs => "h" | .both => "b")
       | _, _ => "bad-arg"
+  | "c17.bift", v :: root :: nfs :: rest => some <| (do
+      let v ← validator? v
+      let root ← ppath? root
+      let nfs ← nat? nfs
+      let nodes ← (rest.take nfs).mapM node?
+      let rest := rest.drop nfs
+      let nent ← nat? (← rest.head?)
+      let entries ← ((rest.drop 1).take nent).mapM entry?
+      let queries ← ((rest.drop 1).drop nent).mapM ppath?
+      some (runBift v root nodes entries queries)).getD "bad-arg"
   | "c17.cleanup", [m] => some <| match nat? m with
       | some m => toString (cleanupMode m) | none => "bad-arg"
   | _, _ => none
